@@ -136,10 +136,25 @@ def authority(target):
     return host, port, path
 
 
+def port_overflows(target):
+    """`http://host:digits…` with a non-empty host and a number above 65535: names no port at all"""
+    if not target.startswith(b"http://"): return False
+    auth = target[7:].split(b"/", 1)[0]
+    if auth.startswith(b"["):
+        j = auth.find(b"]")
+        if j < 0: return False
+        p = auth[j + 1:]
+        return p.startswith(b":") and p[1:].isdigit() and int(p[1:]) > 65535
+    if b":" not in auth or b"]" in auth: return False
+    host, p = auth.rsplit(b":", 1)
+    return host != b"" and p.isdigit() and int(p) > 65535
+
+
 def is_bad(r):
-    """a complete request the proxy must refuse: unparsable, or its target is not an `http://` URI"""
+    """a complete request the proxy must refuse: unparsable, its target is not an `http://` URI, or its port
+    does not fit 16 bits"""
     pr = parse_request(r)
-    return pr is None or not pr["target"].startswith(b"http://")
+    return pr is None or not pr["target"].startswith(b"http://") or port_overflows(pr["target"])
 
 
 def is_literal(h):
